@@ -10,8 +10,10 @@ def cell(s, n):
 
 fixes = "| property | commit | what failed | found by |\n|---|---|---|---|\n" + "\n".join(
     "| %s | %s | %s | %s |" % (f["property"], f["commit"], cell(f["what"], 260), cell(f.get("found_by", ""), 130)) for f in k["fixed"])
-find_rows = ["| C13 | `law:cross-type:*`, `law:eq-symmetric:*`, `law:regex-matches-somewhere:list` (13 keys) | `==` / ordering flatten a list on one side element-wise, so the algebraic laws fail for list-vs-scalar operands (query-level design of the comparison, not a local slip) |",
-             "| C11 | `scalar:agree:plain:<spelling>` (15 keys) | plain YAML scalars such as `inf`, `nan`, `True`, `0x1F`, `1_000` are typed by Rust parsers in `validate` and by serde_yaml's core schema in `test` / run_checks |"]
+n13 = sum(1 for f in k["findings"] if f["key"].startswith("law:"))
+n11 = sum(1 for f in k["findings"] if f["key"].startswith("scalar:agree"))
+find_rows = ["| C13 | `law:cross-type:*`, `law:eq-symmetric:*`, `law:regex-matches-somewhere:list` (%d keys) |" % n13 + " `==` / ordering flatten a list on one side element-wise, so the algebraic laws fail for list-vs-scalar operands (query-level design of the comparison, not a local slip) |",
+             "| C11 | `scalar:agree:<style>:<spelling>` (%d keys) | plain YAML scalars such as `inf`, `nan`, `True`, `0x1F`, `007`, and tagged ones (`!!int 0x1F`, `!!float .inf`), are typed by Rust parsers in `validate` and by serde_yaml's core schema in `test` / run_checks |" % n11]
 for f in k["findings"]:
     if f["key"].startswith("law:") or f["key"].startswith("scalar:agree"):
         continue
